@@ -58,7 +58,9 @@ func Unmarshal(s string, k protoreflect.Kind, evs protoreflect.EnumValueDescript
 			// Go tags use the numeric form of the enum value.
 			if n, err := strconv.ParseInt(s, 10, 32); err == nil {
 				if ev := evs.ByNumber(protoreflect.EnumNumber(n)); ev != nil {
-					return protoreflect.ValueOfEnum(ev.Number()), ev, nil
+					// Use the parsed number: ev may be a placeholder,
+					// which does not know its number.
+					return protoreflect.ValueOfEnum(protoreflect.EnumNumber(n)), ev, nil
 				}
 			}
 		} else {
